@@ -119,6 +119,7 @@ def run_case(case, agg):
                 w["processed_final_record"] = reached
                 return "completed-flag", w
     agg.count("members_checked", len(members))
+    case["_nontrivial"] = any((c_ and len(c_) > 0) for c_ in collected) or any(r_.csvpath.variables or r_.errors or r_.has_printouts() for r_ in results)
     return None, None
 
 
@@ -126,7 +127,7 @@ def run_one(case, agg):
     res, w = run_case(case, agg)
     shape = case["method"] + "|" + "||".join(lang.prog_shape(m["prog"]) + ("#id" if m["ident"] else "#idx") + m["extra"] for m in case["members"])
     if res is None:
-        agg.held(shape, True, sample={"method": case["method"], "members": [lang.program_text(m["prog"], "data") for m in case["members"]]})
+        agg.held(shape, case.pop("_nontrivial", True), sample={"method": case["method"], "members": [lang.program_text(m["prog"], "data") for m in case["members"]]})
         agg.count("method:" + case["method"])
     else:
         agg.violation(res, case, w, shape)
